@@ -219,6 +219,12 @@ func (d *DKG) ProcessResponses() error {
 			if int(resp.Response.Index) == d.ParticipantID {
 				continue
 			}
+			// there is no justification phase in this protocol: a complaint ends the round for
+			// everybody (the dealer complained about must not justify its deal to itself, count
+			// the complaint as an approval and keep a share of a round the others abort)
+			if !resp.Response.Status {
+				return fmt.Errorf("participant %d complains about the deal of participant %d", resp.Response.Index, resp.Index)
+			}
 
 			_, err := d.instance.ProcessResponse(resp)
 			if err != nil {
